@@ -111,6 +111,7 @@ class Tracer:
         self.orig = Concatenator.update_array_attribute
         self.log = []
         self.uids = {}
+        self.depth = 0              # > 0 while inside update_array_attribute
         self.muted = False          # calls made on a copy of the group in another workspace are not part of the model replay
 
     def num(self, u):
@@ -131,6 +132,13 @@ class Tracer:
         def wrapped(self, entity, field, remove=False):
             if tracer.muted:
                 return tracer.orig(self, entity, field, remove)
+            tracer.depth += 1
+            try:
+                return wrapped_inner(self, entity, field, remove)
+            finally:
+                tracer.depth -= 1
+
+        def wrapped_inner(self, entity, field, remove=False):
             kd = isinstance(entity, ConcatenatedData)
             if hasattr(entity, f"_{field}"):
                 vals = getattr(entity, f"_{field}", None)
@@ -165,6 +173,22 @@ class Tracer:
                 raise err
 
         self.C.update_array_attribute = wrapped
+
+        # rows deleted directly (outside update_array_attribute): the arrays of a removed hole.  For the model this is the
+        # removal of the identifier of that row from the channel.
+        def del_rows(self, label, index):
+            if tracer.muted or tracer.depth > 0:
+                return tracer.orig_del(self, label, index)
+            row = self.index[label][index]
+            o, d = tracer.num(row[2]), tracer.num(row[3])
+            tracer.orig_del(self, label, index)
+            idx, dat = self.index.get(label), self.data.get(label)
+            rows = [[int(r[0]), int(r[1]), tracer.num(r[2]), tracer.num(r[3])] for r in idx] if idx is not None else None
+            tracer.log.append({"label": label, "kd": d != 0, "o": o, "d": d, "remove": True, "n": None, "rows": rows,
+                               "data": toks(dat) if dat is not None else None, "err": None})
+
+        self.orig_del = self.C.delete_index_data
+        self.C.delete_index_data = del_rows
 
         # attribute records (model M2c): every update_concatenated_attributes / remove_entity call with the key list and the
         # identifiers of the records afterwards
@@ -202,6 +226,7 @@ class Tracer:
 
     def uninstall(self):
         self.C.update_array_attribute = self.orig
+        self.C.delete_index_data = self.orig_del
         self.C.update_concatenated_attributes = self.orig_upd
         self.C.remove_entity = self.orig_rem
 
@@ -326,7 +351,7 @@ def run_history(ctx: Ctx, tracer: Tracer, hist_id: int, version: float, ops, pat
                 if got != vals:
                     failures.append((f"{hname_}.{n_}: read {got} expected {vals} {tag}", f"C04:{tag.split(':')[0]}:values"))
 
-    def check_raw(tag):
+    def check_raw(tag, live=None):
         import h5py
         with h5py.File(path, "r") as f:
             root = f[list(f.keys())[0]]
@@ -340,6 +365,12 @@ def run_history(ctx: Ctx, tracer: Tracer, hist_id: int, version: float, ops, pat
                 for label in cd["Index"]:
                     idx = cd["Index"][label][:]
                     rows = [[int(r[0]), int(r[1]), tracer.num(r[2]), tracer.num(r[3])] for r in idx]
+                    # no stale entry: every index row belongs to a hole that is still in the group
+                    if live is not None and str(gid) == live[0]:
+                        stale = sorted({r[2] for r in rows if r[2] not in live[1]})
+                        if stale:
+                            failures.append((f"index '{label}' still holds rows of removed holes {stale}: {rows} {tag}",
+                                             "C04:raw:stale-entry:" + ("object-field" if all(r[3] == 0 for r in rows if r[2] in stale) else "data")))
                     if "Data" in cd and label in cd["Data"]:
                         dat = cd["Data"][label][:]
                     elif label in cd:
@@ -483,9 +514,10 @@ def run_history(ctx: Ctx, tracer: Tracer, hist_id: int, version: float, ops, pat
                 depth_len[name] = [0, 1, 2, 3, 7][(hole_counter + hist_id) % 5]      # zero-length tables are legal
                 ctx.count("op:add_hole")
             elif kind == "reopen":
+                live = ("{%s}" % g.uid, {tracer.num(ws.get_entity(hh)[0].uid) for hh in ref if ws.get_entity(hh)[0] is not None})
                 ws.close()
                 flush_trace(tag)
-                check_raw(tag)
+                check_raw(tag, live)
                 gc.collect()
                 ws = Workspace(path)
                 state["ws"] = ws
